@@ -289,3 +289,28 @@ prop("C11", "exploration",
      [dict(name="c11_w_%s" % tn, sources=["c11_wrappers.cpp"], flavour="asan", flags=["-DC11_T=%s" % tt], deps=WRAP_DEPS) for tn, tt in (("d", "double"), ("f", "float"), ("ld", "long double"))] +
      [dict(name="c11_ssi_%s" % tn, sources=["c11_ssi.cpp"], flavour="asan", flags=["-DC11_T=%s" % tt], deps=WRAP_DEPS) for tn, tt in (("d", "double"), ("f", "float"))],
      assumptions=TRUST + ["'all sizes' is sampled; instantiations that do not compile would be a build failure of the check, not a runtime verdict"])
+
+
+# ------------------------------------------------------------------------------------------ C12
+prop("C12", "exploration",
+     "exhaustive over the stated box: for each of 17 solver configurations and every n in 1..12, every (nev, ncv) in [-2, n+3]^2 is passed to the constructor and judged against the documented predicate "
+     "(rejected => std::invalid_argument exactly and unchanged allocated bytes; accepted => no exception and init(); compute(maxit=3) runs); every one of the nine SortRule values as selection and as sorting "
+     "argument (unsupported => invalid_argument, then the same solver must reproduce a fresh solver bit for bit); zero start vectors (+0, -0, mixed); sigma = 0 in ShiftInvert / Buckling / Cayley mode; "
+     "DavidsonSymEigsSolver nev in [-2, n+3]; PartialSVDSolver (ncomp, ncv) box for tall, wide and square input with the leak monitor; LOBPCGSolver size checks for all shapes up to 4x4; every wrapper "
+     "constructor that requires a square matrix with every shape up to 4x4. LeakSanitizer at exit. An evaluation = one call judged; non-trivial = every sweep; distinct by (class, n)",
+     [dict(name="c12_g%d" % g, sources=["c12_args.cpp"], flavour="asan", flags=["-DZOO_GROUP=%d" % g], deps=ZOO_DEPS + ["common/fachook.hpp"]) for g in (0, 1, 2, 3)],
+     assumptions=TRUST + ["the documented predicate is 1 <= nev <= n-1, nev < ncv <= n (symmetric family, SVD on min(m,n)), 1 <= nev <= n-2, nev+2 <= ncv <= n (general family), 1 <= nev <= n-1 (Davidson)"],
+     exhaustive=True)
+
+
+# ------------------------------------------------------------------------------------------ C15
+prop("C15", "exploration",
+     "DavidsonSymEigsSolver over DenseSymMatProd and SparseSymMatProd: seven matrix classes (diagonally dominant, strongly dominant, not dominant, block diagonal, isolated (exactly decoupled) diagonal entries, "
+     "diagonal, dominant with repeated diagonal), n 6..60 (120 thorough), every nev, initial / maximal search-space sizes with initial + correction <= n, LargestAlge/SmallestAlge/LargestMagn/SmallestMagn, "
+     "tol 1e-3..1e-10, maxit 1..100, compute() and compute_with_guess() with an orthonormal block, a non-orthonormal block, and a block that contains unit vectors of decoupled coordinates (exact Ritz vectors). "
+     "Always: every returned number finite. When Successful: compute() returned nev, ||A x - theta x|| < tol + 200 n u ||A|| with A applied by the harness in long double, unit norm, orthonormal, ordered by the rule. "
+     "Non-trivial = a Successful run that iterated; distinct by parameters",
+     [dict(name="c15_davidson", sources=["c15_davidson.cpp"], flavour="asan", deps=SOLVER_DEPS,
+           # Eigen forms &dst(0,0) of an empty destination when the search space has no new column (0-column product): benign inside Eigen, not the library's code
+           flags=["-fno-sanitize=null,pointer-overflow"])],
+     assumptions=TRUST)
